@@ -117,7 +117,7 @@ def main(tier, seed):
         assumptions=[
             __import__("pyvc.props.anysize", fromlist=["A_SUM"]).A_SUM,
             "A-fp: exact equality over the reals with the documented formula; the property's '1e-9 absolute against a high-precision evaluation' is not decided",
-            "phi_major / phi_major_inverse enter as Phi / PhiInv (their bodies are C17's business); A-Phi reflection Phi(-x) = 1 - Phi(x) is used by the normaliser",
+            "phi_major / phi_major_inverse enter as Phi / PhiInv (their bodies are C17's business); A-Phi reflection Phi(-x) = 1 - Phi(x) is used by the normaliser [A-Phi is machine-checked against Mathlib in lemmas/Phi.lean for Phi := the standard Gaussian CDF (thorough tier of C17); that libm's erfc/2 is this Phi stays assumed]",
             "the numeric constants sqrt(N), (1+1/N)/2, n(n-1)/2 are the doubles both the code and the documented formula evaluate to",
             "predict_draw: the code returns |S|/D; S >= 0 is proved with Phi-monotonicity instances (A-Phi)",
             "oracle pyvc/specs/predict.py transcribed from the property text",
